@@ -32,7 +32,11 @@
 //     the product builds ({plain, TLS} x {PROXY protocol off, v1, v2} x {traffic tracking off, on} x {read
 //     limit, write limit, both}) and through the full proxy behind a PROXY-protocol listener (the model's
 //     listener value chain: c20_every_stacking_is_limited; a PROXY wrapper handed the raw listener next to
-//     the limiter: c20_sibling_proxy_drops_limits_witness).
+//     the limiter: c20_sibling_proxy_drops_limits_witness);
+//   - "stall" (stall.go): saturated connections next to connections whose Read/Write sits blocked for 50-400 ms
+//     at a time on one shared limiter, the bound summed over all of them (reservations are stamped when the call
+//     has returned: c20_bound_holds_for_monotone_reservation_times; stamped with the call's start:
+//     c20_stale_stamp_recredits_interval).
 package c20
 
 import (
@@ -602,7 +606,11 @@ func Run(ctx *core.Ctx) {
 		"{read limit only, write limit only, both} (36 per round, 1-3 connections, 16-64 KiB calls, limits 1-2 MiB/s, thorough also 512 KiB/s and 8 MiB/s), each throttled direction carrying burst + 0.8-1.2 s of rate " +
 		"(thorough 1.5-3 s), an unthrottled one burst + 3 s of the other direction's rate; downloads judged on the raw bytes the client's socket delivers (below TLS, handshake done before the clock starts), uploads on the payload " +
 		"the accepted connection hands over (above TLS); w = the chunk (plain) or 64 KiB (TLS: the calls are crypto/tls's); which limiters the connection carries is the model's answer for the stack (verb stackwiring); " +
-		"plus the full proxy started with a PROXY-protocol listener (plain requests and tunnels, v1 and v2 clients, read / write / both limits). distinct = distinct canonical inputs")
+		"plus the full proxy started with a PROXY-protocol listener (plain requests and tunnels, v1 and v2 clients, read / write / both limits). " +
+		"(h) blocked next to busy (stall cases): on one ratelimit.NewListener (and through CONNECT tunnels of the full proxy) 2-3 saturated connections plus 3-5 whose peer is scripted to stall - upload: the client sends nothing for 50-400 ms, " +
+		"then one 1-16 KiB segment (the limited side's Read sits blocked); download: the client (4 KiB socket buffers) takes nothing for that long, then one 16 KiB segment (the limited side's Write sits blocked) - for 2.2-2.8 s at 1-8 MiB/s, " +
+		"both directions; the bound of (c) summed over all connections of the listener (k = all of them), what arrives is the repeated block that was sent; non-trivial = at least 8 segments passed after a pause and the saturated " +
+		"connections moved the burst + half of what the rate gives (the bucket was empty). distinct = distinct canonical inputs")
 	ctx.Assume("golang.org/x/time/rate v0.12.0 is trusted; its reserve arithmetic is the modelled fact (float64 there, exact integers in the model; compared ±1 µs)")
 	ctx.Assume("wall-clock behaviour (timers, scheduler, kernel socket buffers) is sampled, not proved: only one-sided bounds are asserted; the model treats a call's I/O as atomic at one instant and calls as reaching the limiter in time order")
 	ctx.Assume("jitter: concurrent WaitN callers reach the bucket with time stamps out of order and x/time/rate credits every backward step twice (c20_throughput_bound_jitter_partial states the bound with that term); it cannot be observed from outside, the wall-clock bound allows 20 ms + 3 % of the elapsed time for it")
@@ -682,8 +690,10 @@ func Run(ctx *core.Ctx) {
 	xfers := genXfers(ctx)
 	duplex := genDuplex(ctx, ctx.Rng.Sub())
 	stack := genStack(ctx, ctx.Rng.Sub()) // (g) the stacking cases: a pool of their own beside the others
+	stalls := genStall(ctx, ctx.Rng.Sub()) // (h) blocked next to busy: a pool of their own as well
 	var dwg sync.WaitGroup
-	dwg.Add(2)
+	dwg.Add(3)
+	go func() { defer dwg.Done(); runStalls(ctx, stalls) }()
 	go func() { defer dwg.Done(); runDuplex(ctx, duplex) }()
 	go func() { defer dwg.Done(); runXfers(ctx, stack) }()
 	runXfers(ctx, xfers)
@@ -715,6 +725,10 @@ func Replay(ctx *core.Ctx, raw json.RawMessage) {
 		var c duplexCase
 		json.Unmarshal(raw, &c)
 		checkDuplex(ctx, c)
+	case "stall":
+		var c stallCase
+		json.Unmarshal(raw, &c)
+		checkStall(ctx, c)
 	default:
 		core.Fatalf("C20: unknown case kind %q", k.Kind)
 	}
